@@ -29,7 +29,8 @@ and position are in the `detail` / `elem` of the mutation, not in the class, so 
   byteflip.<region>             ByteFlip               one bit / byte changed in a tag name, attribute name, value, markup
 
 `mutations(doc, rng, budget)` enumerates candidates of every class at several positions (stratified by element kind)
-and returns at most `budget` of them, at least one per class, chosen with `rng` (deterministic for a given seed)."""
+and returns at most `budget` of them: a fifth byte-level, the others dealt round-robin over the actions and their
+classes, chosen with `rng` (deterministic for a given seed)."""
 import re
 
 REF_ATTRS = ("type-id", "naming-typedef-id", "def-of-decl-id", "method-class-id", "elf-symbol-id", "alias")
@@ -183,7 +184,7 @@ def candidates(doc, rng, per=2):
 
     # ---- Truncate
     n = len(doc)
-    for k in sorted({rng.randrange(1, n) for _ in range(3 * per)}):
+    for k in sorted({rng.randrange(1, n) for _ in range(8 * per)}):
         add("truncate.raw", "first %d of %d bytes" % (k, n), None, doc[:k])
     for e in _pick(rng, [e for e in E if e.parent is not None], 3 * per):
         closing = b""
@@ -305,34 +306,49 @@ def candidates(doc, rng, per=2):
         mode = rng.choice(["bit", "bit", "ff", "nul", "lt"])
         b[k] = {"bit": b[k] ^ (1 << rng.randrange(7)), "ff": 0xff, "nul": 0, "lt": ord("<")}[mode]
         add(cls, "%s: byte %d %s (%s)" % (what, k, mode, "0x%02x -> 0x%02x" % (doc[k], b[k])), None, bytes(b))
-    for e in _pick(rng, E, 2 * per):
+    for e in _pick(rng, E, 4 * per):
         flip("byteflip.name", e.start + 1, e.start + 1 + len(e.name), "tag name of " + _where(e))
     withattrs = [e for e in E if e.attrs]
-    for e in _pick(rng, withattrs, 2 * per):
+    for e in _pick(rng, withattrs, 4 * per):
         n_, s, en, vs, ve = rng.choice(e.attrs)
         flip("byteflip.attr-name", s, s + len(n_), "attribute name %s of %s" % (n_, _where(e)))
-    for e in _pick(rng, withattrs, 3 * per):
+    for e in _pick(rng, withattrs, 6 * per):
         n_, s, en, vs, ve = rng.choice(e.attrs)
         flip("byteflip.value", vs, ve, "value of %s of %s" % (n_, _where(e)))
-    for e in _pick(rng, E, 2 * per):
+    for e in _pick(rng, E, 4 * per):
         flip("byteflip.markup", e.open_end - 2, e.open_end, "end of the start tag of " + _where(e))
-    for _ in range(2 * per):
+    for _ in range(6 * per):
         flip("byteflip.any", 0, len(doc), "anywhere")
     return out
 
 
+BYTE_LEVEL = ("truncate.raw", "byteflip.")
+
+
 def mutations(doc, rng, budget, per=2):
-    """at most `budget` mutations of `doc` (bytes): at least one of every class, the rest drawn uniformly"""
+    """at most `budget` mutations of `doc` (bytes): a fifth of them byte-level (truncate.raw, byteflip.*: "any byte sequence"); the
+    others structure-aware, dealt round-robin over the actions (SetAttr, which has most classes, three per round) and, within an
+    action, round-robin over its classes -- so every action and, budget permitting, every class is present"""
     cs = candidates(doc, rng, per)
+    raw = [c for c in cs if c[0].startswith(BYTE_LEVEL)]
+    cs = [c for c in cs if not c[0].startswith(BYTE_LEVEL)]
+    out = _pick(rng, raw, max(1, budget // 5))
     by = {}
     for c in cs:
-        by.setdefault(c[0], []).append(c)
-    first, rest = [], []
-    for k in sorted(by):
-        xs = by[k]
-        i = rng.randrange(len(xs))
-        first.append(xs[i])
-        rest += xs[:i] + xs[i + 1:]
-    if len(first) >= budget:
-        return _pick(rng, first, budget)
-    return first + _pick(rng, rest, budget - len(first))
+        by.setdefault(c[0].split(".")[0], {}).setdefault(c[0], []).append(c)
+    queues = {}
+    for a in sorted(by):
+        classes = sorted(by[a])
+        rng.shuffle(classes)
+        for k in classes:
+            rng.shuffle(by[a][k])
+        q = []
+        while any(by[a][k] for k in classes):
+            q += [by[a][k].pop() for k in classes if by[a][k]]
+        queues[a] = q
+    while len(out) < budget and any(queues.values()):
+        for a in sorted(queues):
+            for _ in range(3 if a == "attr" else 1):
+                if queues[a] and len(out) < budget:
+                    out.append(queues[a].pop(0))
+    return out
